@@ -67,7 +67,8 @@ void env_reset(void) {
 }
 
 void env_role(int fd, int role) {
-    if(fd >= 0 && fd < MAXFD) roles[fd] = role;
+    /* descriptor numbers are reused across threads: relaxed atomics keep the harness's own table out of the race reports */
+    if(fd >= 0 && fd < MAXFD) __atomic_store_n(&roles[fd], (unsigned char)role, __ATOMIC_RELAXED);
 }
 
 void env_path_role(const char *path, int role) {
@@ -86,7 +87,7 @@ void env_set_plan(const deviation *d, int n) {
 void env_enable(bool on) { env_on = on; }
 int env_calls(void) { return ncalls; }
 
-static int role_of(int fd) { return (fd >= 0 && fd < MAXFD) ? roles[fd] : 0; }
+static int role_of(int fd) { return (fd >= 0 && fd < MAXFD) ? __atomic_load_n(&roles[fd], __ATOMIC_RELAXED) : 0; }
 
 static void tr(int k, char op, int role, long req, long res, int err, char dev) {
     if(ntrace == captrace) {
@@ -227,7 +228,7 @@ int __wrap_ftruncate64(int fd, off_t l) { return do_ftruncate(fd, l); }
 int __wrap_close(int fd) {
     if(sched_active) sched_point();
     if(env_on && role_of(fd)) tr(-1, 'c', role_of(fd), fd, 0, 0, 0);
-    if(fd >= 0 && fd < MAXFD) roles[fd] = 0;
+    if(fd >= 0 && fd < MAXFD) __atomic_store_n(&roles[fd], 0, __ATOMIC_RELAXED);
     return __real_close(fd);
 }
 
